@@ -456,6 +456,17 @@ class DataclassSerializer:
             finally:
                 visited.remove(obj_id)
 
+        # Handle dicts - recursively serialise values with tracking (a cycle may run through a plain container)
+        if isinstance(obj, dict):
+            visited.add(obj_id)
+            try:
+                serialised = {
+                    key: DataclassSerializer._serialize_with_tracking(value, visited) for key, value in obj.items()
+                }
+                return {key: value for key, value in serialised.items() if value is not None}
+            finally:
+                visited.remove(obj_id)
+
         # For dataclasses, track and use cattrs
         if dataclasses.is_dataclass(obj) and not isinstance(obj, type):
             visited.add(obj_id)
